@@ -4,7 +4,7 @@ from . import build
 
 
 def main():
-    r = build.ensure(["slack", "noslack"], [("hx", "slack"), ("hx", "noslack")])
+    r = build.ensure(["slack", "noslack"], [("hx", "slack"), ("hx", "noslack"), ("hhand", "slack"), ("htok", "slack")])
     print("built", r["key"])
 
 
